@@ -216,6 +216,7 @@ func propC28(c *Check) {
 			}
 		}
 		c.Require(len(chainSets) == 1 && len(sets) == 2, "shape", shortName(f)+"|two writes", "the previous marker is linked to the new operation and the new marker is written", "found "+itoa(len(chainSets))+"/"+itoa(len(sets)))
+		c.MustPass(f, Gate{Name: "len(last.Transactions) != 1 => panic", RejectOnTrue: true, Cond: Bin(token.NEQ, Len(PathFrom(last, "Transactions")), ConstInt(1))}, chainSets, "linking to the previous operation (the recorded predecessor is itself a single-transaction snapshot)")
 		c.MustPass(f, Gate{Name: "last operation != tx.References[0] => panic", RejectOnTrue: true, Cond: BinEither(token.NEQ, PathFrom(last, "Transactions.[]"), Path(tx, "References.[]"))}, chainSets, "linking to the previous operation")
 		c.MustPass(f, Gate{Name: "last.Timestamp >= snap.Timestamp => panic", RejectOnTrue: true, Cond: Bin(token.GEQ, PathFrom(last, "Timestamp"), Path(snap, "Timestamp"))}, chainSets, "linking to the previous operation")
 		c.MustPass(f, Gate{Name: "last operation == tx => return nil (idempotent)", RejectOnTrue: true, Cond: BinEither(token.EQL, PathFrom(last, "Transactions.[]"), Call("(*common.VersionedTransaction).PayloadHash", tx))}, chainSets, "linking to the previous operation")
